@@ -34,3 +34,48 @@ package swagen30
 //@ requires schema != nil && schema.Value != nil
 //@ modifies any(openapi3.Schema.Format), any(openapi3.Schema.Min), any(openapi3.Schema.Max), any(openapi3.Schema.ExclusiveMin), any(openapi3.Schema.ExclusiveMax), any(openapi3.Schema.MinLength), any(openapi3.Schema.MaxLength), any(openapi3.Schema.Pattern), any(openapi3.Schema.MinItems), any(openapi3.Schema.MaxItems), any(openapi3.Schema.UniqueItems), any(openapi3.Schema.Enum), any(elems(schema.Value.Enum))
 //@ loop 0 invariant schema.Value != nil
+
+// ---- operations (C01), security (C04), parameters (C06) ----
+//@ event opRegistered(verb string, op *openapi3.Operation)
+//@ event pathSet(path string)
+//@ extern github.com/getkin/kin-openapi/openapi3.PathItem.SetOperation
+//@ emits opRegistered(method, operation)
+//@ extern github.com/getkin/kin-openapi/openapi3.Paths.Set
+//@ emits pathSet(key)
+//@ extern github.com/getkin/kin-openapi/openapi3.Paths.Find
+//@ extern github.com/getkin/kin-openapi/openapi3.NewResponses
+//@ ensures result != nil
+
+//@ func createOperation props C01,C14
+//@ ensures result != nil && fresh(result)
+//@ ensures result.OperationID == route.OperationId && result.Deprecated == route.Deprecation.Deprecated && result.Description == route.Description
+//@ ensures len(result.Tags) == 1 && result.Tags[0] == def.Tag && len(result.Parameters) == 0 && result.Responses != nil
+
+//@ func setNewRouteOperation props C01,C14 havocs
+//@ requires openapi != nil && openapi.Paths != nil
+//@ mayemit opRegistered, pathSet
+//@ ensures evcount(opRegistered) == old(evcount(opRegistered))+1 && evlast(opRegistered, 0) == string(route.HttpVerb) && evlast(opRegistered, 1) == operation
+//@ ensures evcount(pathSet) == old(evcount(pathSet))+1 && evlast(pathSet, 0) == common.RemoveDuplicateSlash(def.RestMetadata.Path+route.RestMetadata.Path)
+
+//@ func buildSecurityMethod props C04,C14
+//@ ensures err: (result1 != nil) == exists(i, 0, len(securityMethods), !exists(k, 0, len(securitySchemes), securitySchemes[k].SecurityName == securityMethods[i].SchemaName))
+//@ ensures ok: implies(result1 == nil, result0 != nil && fresh(result0) && forall(i, 0, len(securityMethods), indom(*result0, securityMethods[i].SchemaName)))
+//@ ensures single: implies(result1 == nil && len(securityMethods) == 1, (*result0)[securityMethods[0].SchemaName] == securityMethods[0].Scopes && forall(n, string, implies(indom(*result0, n), n == securityMethods[0].SchemaName)))
+//@ loop 0 invariant 0 <= _n && _n <= len(securityMethods) && securityRequirement != nil && fresh(securityRequirement)
+//@ loop 0 invariant forall(i, 0, _n, exists(k, 0, len(securitySchemes), securitySchemes[k].SecurityName == securityMethods[i].SchemaName) && indom(securityRequirement, securityMethods[i].SchemaName))
+//@ loop 0 invariant forall(n, string, implies(indom(securityRequirement, n), exists(i, 0, _n, securityMethods[i].SchemaName == n)))
+//@ loop 0 invariant implies(_n >= 1, securityRequirement[securityMethods[0].SchemaName] == securityMethods[0].Scopes || exists(i, 1, _n, securityMethods[i].SchemaName == securityMethods[0].SchemaName))
+
+// altMatches: requirement map m documents exactly the single-component alternative a (name -> scopes)
+//@ spec altDocumented(m openapi3.SecurityRequirement, a definitions.RouteSecurity) bool = forall(c, 0, len(a.SecurityAnnotation), indom(m, a.SecurityAnnotation[c].SchemaName)) && implies(len(a.SecurityAnnotation) == 1, m[a.SecurityAnnotation[0].SchemaName] == a.SecurityAnnotation[0].Scopes && forall(n, string, implies(indom(m, n), n == a.SecurityAnnotation[0].SchemaName)))
+//@ spec altDeclared(schemes []definitions.SecuritySchemeConfig, a definitions.RouteSecurity) bool = forall(c, 0, len(a.SecurityAnnotation), exists(k, 0, len(schemes), schemes[k].SecurityName == a.SecurityAnnotation[c].SchemaName))
+
+//@ func generateOperationSecurity props C04,C14
+//@ requires operation != nil && config != nil
+//@ modifies operation.Security
+//@ ensures own: implies(result == nil && len(route.Security) > 0, operation.Security != nil && len(*operation.Security) == len(route.Security) && forall(i, 0, len(route.Security), altDocumented((*operation.Security)[i], route.Security[i])))
+//@ ensures dflt: implies(result == nil && len(route.Security) == 0 && config.DefaultRouteSecurity != nil, operation.Security != nil && len(*operation.Security) == 1 && indom((*operation.Security)[0], config.DefaultRouteSecurity.SchemaName) && (*operation.Security)[0][config.DefaultRouteSecurity.SchemaName] == config.DefaultRouteSecurity.Scopes)
+//@ ensures none: implies(result == nil && len(route.Security) == 0 && config.DefaultRouteSecurity == nil, operation.Security != nil && len(*operation.Security) == 0)
+//@ ensures undeclared: implies(len(route.Security) > 0 && exists(i, 0, len(route.Security), !altDeclared(config.SecuritySchemes, route.Security[i])), result != nil)
+//@ loop 0 invariant 0 <= _n && _n <= len(routeSecurity) && len(securityRequirements) == _n && fresh(securityRequirements)
+//@ loop 0 invariant forall(i, 0, _n, altDocumented(securityRequirements[i], routeSecurity[i]) && altDeclared(config.SecuritySchemes, routeSecurity[i]))
